@@ -93,6 +93,15 @@ def make_state(doc, state):
         c = src.clone(keep_id=True)
         c.name = c.name + "_copy"
         dst.append(c)
+    elif state in ("duplicate-ids-prop-equals-section", "duplicate-ids-prop-equals-document"):
+        # objects of different kinds share an id (public API: new_id accepts any valid id)
+        props = [p for s in secs for p in s.properties]
+        p = props[-1] if props else odml.Property("only", values=[1], parent=secs[-1])
+        if state.endswith("document"):
+            p.new_id(doc.id)
+        else:
+            other = [s for s in secs if s is not p.parent]
+            p.new_id((other[0] if other else secs[0]).id)
     elif state == "duplicate-section":
         c = odml.Section("tmpname", secs[0].type, parent=secs[0].parent)
         c._name = secs[0].name
@@ -106,7 +115,8 @@ def make_state(doc, state):
 
 
 STATES = ["valid", "warnings-only", "untyped-section", "duplicate-ids", "duplicate-ids-cross-branch-prop",
-          "duplicate-ids-cross-branch-sec", "duplicate-section", "duplicate-property"]
+          "duplicate-ids-cross-branch-sec", "duplicate-ids-prop-equals-section", "duplicate-ids-prop-equals-document",
+          "duplicate-section", "duplicate-property"]
 
 
 def faults_for(fmt):
